@@ -98,7 +98,7 @@ theorem le_removeAgent (w : World) (b : Aid) : Le w (removeAgent w b) := by
         · exact ⟨ia, ra, h1, h2, h3⟩
       · right; exact h
 
-theorem le_createAgent (w : World) (m : Nat) (ty : Ty) (hold : Bool) (x : Int) : Le w (createAgent w m ty hold x) := by
+theorem le_createAgent (w : World) (m : Nat) (ty : Ty) (hold : Bool) (x : Payload) : Le w (createAgent w m ty hold x) := by
   unfold createAgent
   cases hr : w.regs[m]? with
   | none => exact Le.refl w
@@ -132,7 +132,7 @@ theorem le_createAgent (w : World) (m : Nat) (ty : Ty) (hold : Bool) (x : Int) :
         · simp at h; exact absurd h hne
       · exact h
 
-theorem le_createN (w : World) (m : Nat) (ty : Ty) (hold : Bool) (xs : List Int) : Le w (createN w m ty hold xs) := by
+theorem le_createN (w : World) (m : Nat) (ty : Ty) (hold : Bool) (xs : List Payload) : Le w (createN w m ty hold xs) := by
   unfold createN
   induction xs generalizing w with
   | nil => exact Le.refl w
@@ -188,7 +188,7 @@ theorem removeAgent_log (w : World) (b : Aid) : (removeAgent w b).log = w.log :=
 theorem createAgent_log (w : World) (m ty hold x) : (createAgent w m ty hold x).log = w.log := by
   unfold createAgent; split <;> rfl
 
-theorem createN_log (w : World) (m ty hold) (xs : List Int) : (createN w m ty hold xs).log = w.log := by
+theorem createN_log (w : World) (m ty hold) (xs : List Payload) : (createN w m ty hold xs).log = w.log := by
   unfold createN
   induction xs generalizing w with
   | nil => rfl
